@@ -22,6 +22,22 @@ func isTokenName(b []byte) bool {
 	return true
 }
 
+// isRFCToken: only alphanumerics and - . ! % * _ + ` ' ~
+func isRFCToken(b []byte) bool {
+	if len(b) == 0 {
+		return false
+	}
+	for _, c := range b {
+		switch {
+		case c >= '0' && c <= '9', c >= 'a' && c <= 'z', c >= 'A' && c <= 'Z':
+		case c == '-' || c == '.' || c == '!' || c == '%' || c == '*' || c == '_' || c == '+' || c == '`' || c == '\'' || c == '~':
+		default:
+			return false
+		}
+	}
+	return true
+}
+
 // classify checks one name against both reference tables, directly and (when
 // the name can be written as a token) through the parsers that classify.
 func classify(w *core.Worker, nm []byte, viaParsers bool) {
@@ -65,8 +81,10 @@ func classify(w *core.Worker, nm []byte, viaParsers bool) {
 	var e sipsp.ErrorHdr
 	pan, pmsg, _ = core.Guard(func() { _, e = sipsp.ParseHdrLine(line, 0, &h, nil) })
 	w.Eval(1)
-	if pan || e != sipsp.ErrHdrOk || int(h.Type) != wantH {
-		// a name starting with CR/LF... is excluded by isTokenName; everything else must parse
+	// a name made of RFC 3261 token characters must parse; any other name may also be rejected (a
+	// stricter parser is none of C16's business) - but if it is accepted the classification counts
+	strict := isRFCToken(nm)
+	if pan || (e != sipsp.ErrHdrOk && strict) || (e == sipsp.ErrHdrOk && int(h.Type) != wantH) {
 		w.Fail("parsed-hdr-type", func() *core.Violation {
 			return core.V(fmt.Sprintf("ParseHdrLine(%q) -> verdict %s, Type %d; the table says type %d (panic=%v %s)", line, errName(e), h.Type, wantH, pan, pmsg), line, nil)
 		})
@@ -77,7 +95,7 @@ func classify(w *core.Worker, nm []byte, viaParsers bool) {
 		rl := append(append([]byte(nil), nm...), " sip:a SIP/2.0\r\nXXXXXXXXXXXXXX"...)
 		pan, _, _ = core.Guard(func() { _, e = sipsp.ParseFLine(rl, 0, &fl) })
 		w.Eval(1)
-		if pan || e != sipsp.ErrHdrOk || int(fl.MethodNo) != wantM || !fl.Request() {
+		if pan || (e != sipsp.ErrHdrOk && strict) || (e == sipsp.ErrHdrOk && (int(fl.MethodNo) != wantM || !fl.Request())) {
 			w.Fail("parsed-method", func() *core.Violation {
 				return core.V(fmt.Sprintf("ParseFLine(%q) -> verdict %s, MethodNo %d, Request()=%v; the table says method %d", rl, errName(e), fl.MethodNo, fl.Request(), wantM), rl, nil)
 			})
@@ -88,7 +106,7 @@ func classify(w *core.Worker, nm []byte, viaParsers bool) {
 			cl = append(cl, "\r\nX"...)
 			pan, _, _ = core.Guard(func() { _, e = sipsp.ParseCSeqVal(cl, 0, &cs) })
 			w.Eval(1)
-			if pan || e != sipsp.ErrHdrOk || int(cs.MethodNo) != wantM {
+			if pan || (e != sipsp.ErrHdrOk && strict) || (e == sipsp.ErrHdrOk && int(cs.MethodNo) != wantM) {
 				w.Fail("parsed-cseq-method", func() *core.Violation {
 					return core.V(fmt.Sprintf("ParseCSeqVal(%q) -> verdict %s, MethodNo %d; the table says %d", cl, errName(e), cs.MethodNo, wantM), cl, nil)
 				})
